@@ -5,6 +5,8 @@
    restricted to keys of exactly the mapper width: in general it is false (F-C03c, open finding),
    exhibited by C03_map_index_refuted. *)
 From GoSST Require Import Base.Bytes Base.ProtoWire RecordIO.Format RecordIO.SeekFacts.
+From GoSST Require Import Base.CodeFacts.
+From GoSSTGen Require Import FactsCode.
 From GoSST Require Import SST.TableWriter SST.Index SST.IndexFacts SST.TableReader SST.TableReaderFacts SST.DiskIndexFacts.
 Local Open Scope N_scope.
 
@@ -16,6 +18,11 @@ Theorem C03_table_is_sorted_map_slice :
   psorted kvs -> Forall (pair_ok ci cd) kvs -> Forall val_ok kvs -> file_ok cd kvs ->
   exists r, open_table LSlice (write_table ci cd kvs) ci cd = Ok r /\ behaves_as_sorted_map r kvs.
 Proof. exact table_is_sorted_map_slice. Qed.
+(* the constructors the two sides call in the source, re-read on every run *)
+Theorem C03_bloom_hash_same_on_both_sides :
+  bloom_hash_writer = bloom_hash_reader.
+Proof. apply hash_facts. Qed.
+
 Print Assumptions C03_table_is_sorted_map_slice.
 
 Theorem C03_table_is_sorted_map_skiplist :
@@ -77,3 +84,4 @@ Theorem C03_bloom_false_positives_harmless :
     /\ (forall k, rd_contains r k = Ok (spec_contains kvs k)).
 Proof. exact bloom_false_positives_harmless. Qed.
 Print Assumptions C03_bloom_false_positives_harmless.
+Print Assumptions C03_bloom_hash_same_on_both_sides.
